@@ -10,7 +10,7 @@ The per-rank event logs are merged by DOF coordinate key and judged:
   equal the p=1 run; PCG-MG: final solution and errors only (hierarchy depends on p).
   The same configuration under different arrival orders must agree (up to rounding).
 """
-import json, os, subprocess, glob, math, time, random, hashlib, shutil
+import json, os, re, subprocess, glob, math, time, random, hashlib, shutil
 from . import build, sup
 
 REPO = build.REPO
@@ -379,6 +379,8 @@ def judge_run(j, ranks, ref_ranks, nprocs):
         if any(v != vals[0] for v in vals):
             j.viol("dist." + name, "ranks-disagree", dict(values=vals))
             continue
+        if name.startswith("pcgj_def_iter") and max(vals[0], ref_sc[name]) <= 1e-12 * max(ref_sc.get("pcgj_def_init", 0.0), 1e-300):
+            continue  # both runs are at the rounding level of the initial defect already (tiny problem): pure noise
         if not close(vals[0], ref_sc[name], rel, ab):
             j.viol("dist." + name, "differs-from-serial", dict(distributed=vals[0], serial=ref_sc[name], nprocs=nprocs))
     for a, b in (("dot_u_w_async", "dot_u_w"), ("norm2_u_async", "norm2_u"), ("norm2sqr_w_async", "norm2sqr_w"), ("max_abs_u_async", "max_abs_u"),
@@ -405,7 +407,9 @@ def judge_run(j, ranks, ref_ranks, nprocs):
         d0 = sc[0].get("pcgj_def_init", 0.0)
         if sc[0].get("pcgj_status_success") == 1.0 and not (vals[0] <= 1e-9 * d0 * 1.0001):
             j.viol("dist.pcgj_def_final", "success-but-criterion-not-met", dict(distributed=vals[0], def_init=d0))
-        if not (0.1 * ref_sc["pcgj_def_final"] <= vals[0] <= 10 * ref_sc["pcgj_def_final"] or vals[0] <= 1e-300):
+        # (only when the serial run did not land at the rounding level of the initial defect: a tiny problem may be solved
+        #  "exactly" by one run and merely to the tolerance by the other)
+        if ref_sc["pcgj_def_final"] > 1e-12 * max(d0, 1e-300) and not (0.1 * ref_sc["pcgj_def_final"] <= vals[0] <= 10 * ref_sc["pcgj_def_final"] or vals[0] <= 1e-300):
             j.viol("dist.pcgj_def_final", "differs-from-serial", dict(distributed=vals[0], serial=ref_sc["pcgj_def_final"], nprocs=nprocs))
     # the u dump of the serial run covers all dofs: dot/norm of the undecomposed vector recomputed by the checker
     ref_w = vecs_of(ref_ranks, "w")[0]
@@ -537,6 +541,17 @@ def run(pid, spec, unit, binp, tier, seed, workdir, overlay, scale):
                 if ranks is None:
                     j.viol("dist.run", "incomplete-log", dict(error=err))
                     res["viols"].extend(j.viols)
+                    continue
+                # FEAT may raise the finest level when the desired level string cannot be partitioned on p processes (the
+                # partitioning level must hold enough cells); the one-process run then lives on another mesh and nothing
+                # can be compared: such a configuration is counted, not judged
+                def finest(recs):
+                    info = next((r_ for r_ in recs[0] if r_.get("t") == "info"), {})
+                    m_ = re.match(r"\s*(\d+)", str(info.get("chosen_levels", "")))
+                    return int(m_.group(1)) if m_ else None
+                if finest(ranks) != finest(ref):
+                    res["trivial"] += 1
+                    res["counters"]["skipped_finest_level_adjusted_by_the_partitioner"] = res["counters"].get("skipped_finest_level_adjusted_by_the_partitioner", 0) + 1
                     continue
                 judge_run(j, ranks, ref, p)
                 # arrival orders observed at the synchronisation points
